@@ -53,6 +53,36 @@ def R2_counters(ctx):
     op = a.test.args[3]
     ok_it = False
     detail = ""
+    def counter_shape(l_):
+        init_, incs_, other_ = [], [], []
+        for (bb_, pos_, proj_) in b.defs.get(l_, []):
+            if pos_ == "term" or proj_:
+                other_.append((bb_, pos_)); continue
+            rv_ = b.blocks[bb_]["stmts"][pos_]["rv"]
+            if tm.rvalue(rv_, bb_, pos_) == ("const", "u64", 0) and bb_ not in a.loop_blocks:
+                init_.append(bb_)
+            elif increment_of(b, bb_, pos_, l_) == 1 and bb_ in a.loop_blocks:
+                incs_.append(bb_)
+            else:
+                other_.append((bb_, pos_))
+        return len(init_) == 1 and len(incs_) >= 1 and not other_
+    direct = op["k"] in ("copy", "move") and not op["place"]["p"]
+    if direct:
+        l0 = op["place"]["l"]
+        d0 = b.defs.get(l0, [])
+        if len(d0) == 1 and d0[0][1] != "term":
+            s0 = b.blocks[d0[0][0]]["stmts"][d0[0][1]]
+            if s0["rv"]["k"] == "use" and s0["rv"]["op"]["k"] in ("copy", "move") and not s0["rv"]["op"]["place"]["p"]:
+                l0 = s0["rv"]["op"]["place"]["l"]
+        direct = counter_shape(l0)
+    if not direct:
+        # the counter may travel to the test inside a value that bundles the progress figures (a struct built per turn, a
+        # tuple): find the counter local whose value at the test *is* the argument, in the term domain
+        want_t = a.arg(a.test, 3)
+        for l_ in sorted(b.defs):
+            if b.locals[l_]["ty"] == "u64" and counter_shape(l_) and clean(tm.local(l_, a.test.bb, len(b.blocks[a.test.bb]["stmts"]))) == clean(want_t):
+                op = {"k": "copy", "place": {"l": l_, "p": []}}
+                break
     if op["k"] in ("copy", "move") and not op["place"]["p"]:
         l = op["place"]["l"]
         # follow one copy `tmp = iterations`
